@@ -441,6 +441,7 @@ NnlsProblem make_nnls(const Json &d) {
 	std::string kind = d.gets("kind", "random");
 	p.n = n;
 	int m0 = n + 1 + (int)r.below((uint64_t)n + 2);
+	if (kind == "bumps") m0 = 4 * n;
 	// the last n rows of M are sqrt(ridge)*I: A = M'M is positive definite by construction
 	int m = m0 + n;
 	p.m = m;
@@ -459,6 +460,16 @@ NnlsProblem make_nnls(const Json &d) {
 			for (int i = 0; i <= j; i++) p.M[(size_t)k * n + i] += bj;   // column i of B*T = sum_{j>=i} B_j
 		}
 		for (int k = 0; k < m0; k++) p.y[(size_t)k] = std::sin(3.0 * k / m0 + r.unit()) + 0.3 * r.normal();
+		for (int i = 0; i < n; i++) p.M[(size_t)(m0 + i) * n + i] = 1e-2;
+	} else if (kind == "bumps") {
+		// strongly overlapping bump columns and data with sign changes: the unconstrained sub-solutions
+		// ring, so several outer iterations with projected line searches and pending constraints happen
+		double w = r.uniform(0.6, 1.4), ph = r.uniform(0, 6.28), fr = r.uniform(1, 4);
+		for (int k = 0; k < m0; k++) {
+			double t = (double)k * (n - 1) / (double)(m0 > 1 ? m0 - 1 : 1);
+			for (int j = 0; j < n; j++) p.M[(size_t)k * n + j] = std::exp(-0.5 * (t - j) * (t - j) / (w * w));
+			p.y[(size_t)k] = std::sin(fr * t * 6.28 / n + ph) + 0.3 * r.normal() + 0.2;
+		}
 		for (int i = 0; i < n; i++) p.M[(size_t)(m0 + i) * n + i] = 1e-2;
 	} else {
 		double dens = kind == "sparse" ? 0.3 : 1.0;
@@ -770,8 +781,9 @@ struct SchedHarness : Harness {
 			est_len = 20 + 12 * workers;
 		} else if (depth == "block3" || depth == "plain") {
 			int n = 2 + (int)gen.below(9);
-			static const char *kinds[] = {"random", "random", "integer", "degenerate", "scaled", "sparse", "tspline", "tspline"};
-			std::string kind = kinds[gen.below(8)];
+			static const char *kinds[] = {"random", "random", "integer", "degenerate", "scaled", "sparse", "tspline", "tspline", "bumps", "bumps", "bumps"};
+			std::string kind = kinds[gen.below(11)];
+			if (kind == "bumps" || (kind == "tspline" && gen.chance(0.5))) n = 6 + (int)gen.below(7);   // 6..12: room for multi-step active-set histories
 			if (kind == "sparse" && gen.chance(0.5)) n = 13 + (int)gen.below(28);   // beyond enumeration: KKT residual only
 			prob["n"] = Json(n);
 			prob["kind"] = Json(kind);
@@ -836,12 +848,21 @@ struct SchedHarness : Harness {
 		if (o.diverged) ctx.count("probe:explicit_schedule_diverged");
 		switch (o.kind) {
 		case SchedOutcome::OK: break;
+		// "the solver terminates" is C11's own clause: when C11 is the property being checked a solver that
+		// never returns under the sampled schedule is reported under C11 (the same event is C12's when C12 is checked)
 		case SchedOutcome::DEADLOCK:
-			ctx.violate("C12|deadlock|" + what + "|" + (o.detail.find("not-signalled") != std::string::npos ? "lost_wakeup" : "blocked"),
+			if (G.prop == "C11") ctx.violate("C11|no_termination|" + what + "|deadlock", "solver never returns: no enabled thread while threads are unfinished: " + o.detail);
+			else ctx.violate("C12|deadlock|" + what + "|" + (o.detail.find("not-signalled") != std::string::npos ? "lost_wakeup" : "blocked"),
 			            "no enabled thread while threads are unfinished: " + o.detail);
 			break;
-		case SchedOutcome::BUDGET: ctx.violate("C12|no_progress|" + what + "|run_budget", "step budget of the whole run exhausted: " + o.detail); break;
-		case SchedOutcome::CALL_BUDGET: ctx.violate("C12|no_progress|" + what + "|call_budget", "line search did not finish within its logical-step bound: " + o.detail); break;
+		case SchedOutcome::BUDGET:
+			if (G.prop == "C11") ctx.violate("C11|no_termination|" + what + "|run_budget", "step budget of the whole run exhausted: " + o.detail);
+			else ctx.violate("C12|no_progress|" + what + "|run_budget", "step budget of the whole run exhausted: " + o.detail);
+			break;
+		case SchedOutcome::CALL_BUDGET:
+			if (G.prop == "C11") ctx.violate("C11|no_termination|" + what + "|call_budget", "line search did not finish within its logical-step bound: " + o.detail);
+			else ctx.violate("C12|no_progress|" + what + "|call_budget", "line search did not finish within its logical-step bound: " + o.detail);
+			break;
 		case SchedOutcome::MISUSE: ctx.violate("C12|pthread_misuse|" + what, o.detail); break;
 		case SchedOutcome::ABANDONED: ctx.violate("C11|no_termination|" + what + "|" + o.detail, "solver exceeded any legitimate iteration count; run abandoned"); break;
 		}
